@@ -742,6 +742,11 @@ var smtBuiltins = map[string]smtB{
 	"foldcase":  {"str$fold", SString, []string{SString}},
 	"lowercase": {"str$lower", SString, []string{SString}},
 	"hexu":      {"uuid$hex", SString, []string{SString}},
+	"sha16":       {"sha16$", SString, []string{SString}},
+	"varintBytes": {"varint$bytes", SString, []string{SInt}},
+	"le64Bytes":   {"le64$bytes", SString, []string{SInt}},
+	"f64bits":     {"f64$bits", SInt, []string{SF64}},
+	"wrap64":      {"wrap64", SInt, []string{SInt}},
 }
 
 func (env *Env) callSpec(sf *SpecFunc, args []CVal) (CVal, error) {
@@ -853,6 +858,17 @@ func (fc *FnCtx) declareSpec(sf *SpecFunc) error {
 		return fmt.Errorf("spec def %s: %v", sf.Name, err)
 	}
 	def := fmt.Sprintf("(define-fun %s (%s) %s %s)", name, strings.Join(ps2, " "), rs, body.T.S)
+	if sf.Declared {
+		var qs []string
+		for _, p := range sf.Params {
+			qs = append(qs, "q$"+p.Name)
+		}
+		app := name
+		if len(qs) > 0 {
+			app = "(" + name + " " + strings.Join(qs, " ") + ")"
+		}
+		def = fmt.Sprintf("(declare-fun %s (%s) %s)\n(assert (forall (%s) (! (= %s %s) :pattern (%s))))", name, strings.Join(ps, " "), rs, strings.Join(ps2, " "), app, body.T.S, app)
+	}
 	// move to the end (after dependencies)
 	fc.decls = append(fc.decls[:idx], fc.decls[idx+1:]...)
 	fc.decls = append(fc.decls, def)
